@@ -1,4 +1,8 @@
 import YaqsModel.Lemmas.Layers
+import YaqsModel.Lemmas.GateExact
+import YaqsModel.Lemmas.GateWindow
+import YaqsModel.Lemmas.GateSweep
+import YaqsModel.Props.C18
 
 /-!
 # C02 — noise-free circuit simulation equals the exact unitary semantics of the circuit
@@ -170,5 +174,568 @@ theorem front_layer_spec (rem : List Instr) (w : Wire) :
     rw [hc] at h
     simp only [List.length_nil, List.length_cons] at h h2
     omega
+
+end Yaqs.Layers
+
+/-!
+# C02 extension (xg02) — one `apply_two_qubit_gate` call is exact: generator MPO + window + one digital two-site sweep
+
+`schedule_sound` gives the gate *order*, C18 gives `exp(-i·A⊗B) = gate matrix`.  The theorems below close the step in
+between, for `digital_tjm.apply_two_qubit_gate` on neighbouring sites: the generator MPO (`construct_generator_mpo`: `A` and
+`B` on the gate's sites, bond-dimension-1 identity tensors elsewhere), the window of `apply_window` (one extra site on each
+side where the chain has one) and ONE left-to-right sweep of `two_site_tdvp` in digital mode (`Model/Conserve.lean`,
+`twoSiteFull n true`: merge, pair step `+1`, split, site step `-1`, …, last pair step `+1`).  Three layers:
+
+1. **index model** (`Model/Heff.lean` contraction orders of `project_site`, `Model/GateWindow.lean` those of
+   `merge_mps_tensors` / `merge_mpo_tensors`; any commutative semiring) — `heff_site_identity_left/right`,
+   `heff_pair_identity_left/right`, `heff_gate_pair`, `window_blocks_identity`: with the identity block and an identity MPO
+   tensor on one side, the effective Hamiltonian of the pair is `1 ⊗ (that of the other site)`, with the *same* kernel as the
+   single-site problem after the split; on the gate's own pair it is `A ⊗ B` on the two physical legs.
+2. **exponential** (Mathlib's `NormedSpace.exp` over ℂ) — `flow_spectator`, `site_step_identity_left/right`, `pair_step_gate`:
+   the exponential of `1 ⊗ K` is `1 ⊗ exp K`, so `update_site` with such an effective Hamiltonian applies `exp(-(t·i)•K)` to part
+   of the legs and leaves the others alone.
+3. **sweep** (MPS tensors as families of rectangular complex matrices, new bond types after every split) —
+   `gate_sweep_cancel_left/right`, `gate_sweep_exact_2`, `…_3_left`, `…_3_right`, `…_4`: with the times of the model's step list
+   (`gate_sweep_times`: `+1, -1, …, +1` for every window length) the product of the final tensors is
+   `exp(-i·Gen)` on the gate's two physical legs applied to the product of the initial tensors — for the four window shapes
+   `apply_window` can produce (`gate_window_shapes`).  `gate_sweep_gate_matrix` identifies `exp(-i·Gen)` with the gate table
+   (C18), `c02_trajectory_is_circuit_unitary` composes the gates along the schedule (`schedule_sound`).
+
+**What remains a hypothesis** (named again at each theorem): exact arithmetic; `expm_krylov` returns `exp(-i·t·H_eff)·v`
+(C19); the split does not truncate and its left factor has orthonormal columns (SVD spec, C09; thresholds below the smallest
+singular value); the window's tensors to the right of the gate's lower site are right-canonical (what `MPS.normalize("B")`
+after every gate establishes, C10) — nothing is needed about the tensors outside the window nor about the window's first
+tensor: the centre shift of `apply_window` serves the optimality of a *truncating* split (C09), not exactness; and, between
+layer 2 and layer 3, the re-indexing of numpy's flattened `(phys, left, right)` index as a triple (layer 2 is stated over
+triples, `site_step_index_model` joins it to the index model's `h6` over `Fin` triples).  The tie runs the real `apply_two_qubit_gate` with these
+hypotheses *checked at every `update_site` call* (identity blocks, MPO factors) and the dense window state compared after every
+step (kinds `gate-plan`, `gate-apply`, `gate-cancel`, `merge-*`, `pair-apply` of `harness/impl/C02.py`).
+-/
+
+namespace Yaqs.Heff
+
+open Finset
+
+/-- **C02.5a `heff_site_identity_left`** (lemma 1, single site).  Index model of `project_site` / `build_dense_heff_site`.
+    If the left MPO bond of the site has dimension 1 and the left block is the identity (`left_blocks[i]` after a
+    left-canonical prefix carrying identity MPO tensors — `window_blocks_identity`), then for every MPO tensor `W` and every
+    right block `R` the effective Hamiltonian acts on the legs `(phys, right bond)` only, with kernel
+    `opR d W R o p b B 0 = Σ_r W[o,p,0,r]·R[b,r,B]`, and the left bond index is a spectator: (i) matrix-free form, (ii) dense form
+    `h6[o,A',B,p,a,b] = δ_{a A'}·kernel`.  The kernel depends on `W`, `R` and `d.r` only — not on the left bond — which is why the
+    pair step and the backward site step of the sweep use the same generator. -/
+theorem heff_site_identity_left {K : Type*} [CommSemiring K] (d : SiteDims) (hl : d.l = 1) (ha : d.a = d.aa)
+    (L R : ℕ → ℕ → ℕ → K) (W : ℕ → ℕ → ℕ → ℕ → K) (hL : IsIdEnv d.a L) (X : ℕ → ℕ → ℕ → K) (o A' B : ℕ)
+    (hA : A' < d.aa) :
+    projectSite d L R W X o A' B = ∑ p ∈ range d.p, ∑ b ∈ range d.b, opR d W R o p b B 0 * X p A' b ∧
+    ∀ p a b, a < d.a → h6 d L R W o A' B p a b = if a = A' then opR d W R o p b B 0 else 0 :=
+  ⟨site_heff_idleft d hl ha L R W hL X o A' B hA,
+    fun p a b ha' => dense_heff_idleft d hl L R W hL o A' B p a b ha' (ha ▸ hA)⟩
+
+/-- non-vacuity: the boundary block of the sweep is an identity block, and a concrete instance over ℤ
+    (`W = [[1,2],[3,4]]`, `R = 1`, bond dimensions 2) evaluates as the right-hand side says -/
+example : IsIdEnv 2 (idEnv : ℕ → ℕ → ℕ → ℤ) := isIdEnv_idEnv 2
+example :
+    projectSite ⟨2, 2, 2, 2, 2, 2, 1, 1⟩ (idEnv : ℕ → ℕ → ℕ → ℤ) idEnv
+      (genOp fun o p => (2 * o + p + 1 : ℕ)) (fun p a b => (p + 2 * a + 4 * b + 1 : ℕ)) 1 1 0 = 3 * 3 + 4 * 4 := by
+  decide +kernel
+
+/-- **C02.5b `heff_pair_identity_left`** (lemma 1, merged pair).  Sites `i, i+1` of the window, `W_i` the bond-dimension-1
+    identity tensor, the left block the identity; `θ` any merged tensor (`merge_mps_tensors`), the merged MPO tensor as
+    `merge_mpo_tensors` builds it.  Then `project_site` on the pair equals (i) `project_site` of the *single-site problem of
+    site `i+1`* (same left block, same `W_{i+1}`, same right block) applied to every slice `θ[(o0, ·), ·, ·]` of the merged
+    tensor — i.e. `H_eff(pair) = 1 ⊗ H_eff(site i+1)` — and (ii) the kernel form of `heff_site_identity_left`. -/
+theorem heff_pair_identity_left {K : Type*} [CommSemiring K] (d0 d1 : SiteDims) (hop : d0.o = d0.p) (hl : d0.l = 1)
+    (ha : d0.a = d0.aa) (L R : ℕ → ℕ → ℕ → K) (W1 : ℕ → ℕ → ℕ → ℕ → K) (hL : IsIdEnv d0.a L) (θ : ℕ → ℕ → ℕ → K)
+    (o0 o1 A' B : ℕ) (ho0 : o0 < d0.o) (ho1 : o1 < d1.o) (hA : A' < d0.aa) :
+    projectSite (pairDims d0 d1) L R (mergeOp d1.o d1.p 1 idOp W1) θ (flat2 d1.o o0 o1) A' B =
+      projectSite ⟨d1.o, d1.p, d0.a, d0.aa, d1.b, d1.bb, 1, d1.r⟩ L R W1 (fun p a b => θ (flat2 d1.p o0 p) a b) o1 A' B ∧
+    projectSite (pairDims d0 d1) L R (mergeOp d1.o d1.p 1 idOp W1) θ (flat2 d1.o o0 o1) A' B =
+      ∑ p ∈ range d1.p, ∑ b ∈ range d1.b, opR d1 W1 R o1 p b B 0 * θ (flat2 d1.p o0 p) A' b := by
+  have h2 := pair_heff_idleft d0 d1 hop hl ha L R W1 hL θ o0 o1 A' B ho0 ho1 hA
+  refine ⟨?_, h2⟩
+  rw [h2, site_heff_idleft ⟨d1.o, d1.p, d0.a, d0.aa, d1.b, d1.bb, 1, d1.r⟩ rfl ha L R W1 hL _ o1 A' B hA]
+  rfl
+
+/-- non-vacuity: identity ⊗ `[[1,2],[3,4]]` on a merged tensor over ℤ, evaluated -/
+example :
+    projectSite (pairDims ⟨2, 2, 1, 1, 2, 2, 1, 1⟩ ⟨2, 2, 2, 2, 1, 1, 1, 1⟩) (idEnv : ℕ → ℕ → ℕ → ℤ) idEnv
+      (mergeOp 2 2 1 idOp (genOp fun o p => (2 * o + p + 1 : ℕ))) (fun st _ _ => (st + 1 : ℕ)) (flat2 2 1 0) 0 0 =
+      1 * 3 + 2 * 4 := by
+  decide +kernel
+
+/-- **C02.5c `heff_site_identity_right`** mirror image of C02.5a: right MPO bond of dimension 1 and identity right block ⇒ the
+    effective Hamiltonian acts on `(phys, left bond)` only, kernel `opL d W L o p a A' 0 = Σ_l W[o,p,l,0]·L[a,l,A']`, the right
+    bond a spectator; (i) matrix-free, (ii) dense. -/
+theorem heff_site_identity_right {K : Type*} [CommSemiring K] (d : SiteDims) (hr : d.r = 1) (hb : d.b = d.bb)
+    (L R : ℕ → ℕ → ℕ → K) (W : ℕ → ℕ → ℕ → ℕ → K) (hR : IsIdEnv d.b R) (X : ℕ → ℕ → ℕ → K) (o A' B : ℕ)
+    (hB : B < d.bb) :
+    projectSite d L R W X o A' B = ∑ p ∈ range d.p, ∑ a ∈ range d.a, opL d W L o p a A' 0 * X p a B ∧
+    ∀ p a b, b < d.b → h6 d L R W o A' B p a b = if b = B then opL d W L o p a A' 0 else 0 :=
+  ⟨site_heff_idright d hr hb L R W hR X o A' B hB,
+    fun p a b hb' => dense_heff_idright d hr L R W hR o A' B p a b hb' (hb ▸ hB)⟩
+
+example :
+    projectSite ⟨2, 2, 2, 2, 2, 2, 1, 1⟩ (idEnv : ℕ → ℕ → ℕ → ℤ) idEnv
+      (genOp fun o p => (2 * o + p + 1 : ℕ)) (fun p a b => (p + 2 * a + 4 * b + 1 : ℕ)) 0 1 1 = 1 * 7 + 2 * 8 := by
+  decide +kernel
+
+/-- **C02.5d `heff_pair_identity_right`** the pair `(i, i+1)` with the identity MPO tensor on site `i+1` and the identity block
+    to its right (right-canonical tensors carrying identity MPO tensors behind it): `H_eff(pair) = H_eff(site i) ⊗ 1` — the
+    single-site problem of site `i` with the same left block `left_blocks[i]`, applied to every slice `θ[(·, o1), ·, B]`.  This
+    is the pair that follows the backward step on site `i`: same generator, opposite sign. -/
+theorem heff_pair_identity_right {K : Type*} [CommSemiring K] (d0 d1 : SiteDims) (hop : d1.o = d1.p) (hr : d1.r = 1)
+    (hb : d1.b = d1.bb) (L R : ℕ → ℕ → ℕ → K) (W0 : ℕ → ℕ → ℕ → ℕ → K) (hR : IsIdEnv d1.b R) (θ : ℕ → ℕ → ℕ → K)
+    (o0 o1 A' B : ℕ) (ho1 : o1 < d1.o) (hB : B < d1.bb) :
+    projectSite (pairDims d0 d1) L R (mergeOp d1.o d1.p 1 W0 idOp) θ (flat2 d1.o o0 o1) A' B =
+      projectSite ⟨d0.o, d0.p, d0.a, d0.aa, d1.b, d1.bb, d0.l, 1⟩ L R W0 (fun p a b => θ (flat2 d1.p p o1) a b) o0 A' B ∧
+    projectSite (pairDims d0 d1) L R (mergeOp d1.o d1.p 1 W0 idOp) θ (flat2 d1.o o0 o1) A' B =
+      ∑ p ∈ range d0.p, ∑ a ∈ range d0.a, opL d0 W0 L o0 p a A' 0 * θ (flat2 d1.p p o1) a B := by
+  have h2 := pair_heff_idright d0 d1 hop hr hb L R W0 hR θ o0 o1 A' B ho1 hB
+  refine ⟨?_, h2⟩
+  rw [h2, site_heff_idright ⟨d0.o, d0.p, d0.a, d0.aa, d1.b, d1.bb, d0.l, 1⟩ rfl hb L R W0 hR _ o0 A' B hB]
+  rfl
+
+example :
+    projectSite (pairDims ⟨2, 2, 1, 1, 2, 2, 1, 1⟩ ⟨2, 2, 2, 2, 1, 1, 1, 1⟩) (idEnv : ℕ → ℕ → ℕ → ℤ) idEnv
+      (mergeOp 2 2 1 (genOp fun o p => (2 * o + p + 1 : ℕ)) idOp) (fun st _ _ => (st + 1 : ℕ)) (flat2 2 1 0) 0 0 =
+      3 * 1 + 4 * 3 := by
+  decide +kernel
+
+/-- **C02.5e `heff_gate_pair`** (lemma 2).  The gate's own pair: generator factors `A`, `B` as bond-dimension-1 MPO tensors
+    (`construct_generator_mpo`), identity blocks on both sides (left-canonical prefix / right-canonical suffix, identity MPO
+    tensors outside the gate).  `project_site` on the merged tensor is the two-site operator `A ⊗ B` on the two physical legs —
+    `Σ_{p0,p1} A[o0,p0]·B[o1,p1]·θ[(p0,p1),A',B]` — with both bond indices spectators: the pair step is `exp(-i·A⊗B)` itself. -/
+theorem heff_gate_pair {K : Type*} [CommSemiring K] (d0 d1 : SiteDims) (hl : d0.l = 1) (ha : d0.a = d0.aa)
+    (hr : d1.r = 1) (hb : d1.b = d1.bb) (L R : ℕ → ℕ → ℕ → K) (GA GB : ℕ → ℕ → K) (hL : IsIdEnv d0.a L)
+    (hR : IsIdEnv d1.b R) (θ : ℕ → ℕ → ℕ → K) (o0 o1 A' B : ℕ) (ho1 : o1 < d1.o) (hA : A' < d0.aa) (hB : B < d1.bb) :
+    projectSite (pairDims d0 d1) L R (mergeOp d1.o d1.p 1 (genOp GA) (genOp GB)) θ (flat2 d1.o o0 o1) A' B =
+      ∑ p0 ∈ range d0.p, ∑ p1 ∈ range d1.p, GA o0 p0 * GB o1 p1 * θ (flat2 d1.p p0 p1) A' B :=
+  pair_heff_gate d0 d1 hl ha hr hb L R GA GB hL hR θ o0 o1 A' B ho1 hA hB
+
+/-- non-vacuity: `A = [[1,2],[3,4]]`, `B = [[5,6],[7,8]]`, entry `(1,0)` of `(A⊗B)·θ` over ℤ -/
+example :
+    projectSite (pairDims ⟨2, 2, 2, 2, 2, 2, 1, 1⟩ ⟨2, 2, 2, 2, 2, 2, 1, 1⟩) (idEnv : ℕ → ℕ → ℕ → ℤ) idEnv
+      (mergeOp 2 2 1 (genOp fun o p => (2 * o + p + 1 : ℕ)) (genOp fun o p => (2 * o + p + 5 : ℕ)))
+      (fun st a b => (st + 4 * a + 8 * b + 1 : ℕ)) (flat2 2 1 0) 1 1 =
+      3 * 5 * 13 + 3 * 6 * 14 + 4 * 5 * 15 + 4 * 6 * 16 := by
+  decide +kernel
+
+/-- **C02.5f `window_blocks_identity`** the hypotheses "identity block" of C02.5a–e along the sweep.  (i) After an untruncated
+    split the new left tensor `U` has orthonormal columns, and `left_blocks[i+1] = update_left_environment(U, U, 1, left_blocks[i])`
+    is again the identity; (ii) `initialize_right_environments` over right-canonical tensors carrying identity MPO tensors gives
+    identity blocks (the sites behind the gate); (iii) the same for a left-canonical prefix. -/
+theorem window_blocks_identity {K : Type*} [CommSemiring K] (cj : K → K) :
+    (∀ (s : Site K), IdSite s → LeftIsoIdx cj s → ∀ L : ℕ → ℕ → ℕ → K, IsIdEnv s.d.a L →
+      IsIdEnv s.d.b (updateLeft cj s.d L s.W s.ket s.ket)) ∧
+    (∀ (n : ℕ) (rs : List (Site K)), RightCanon cj n rs → ∀ R0 : ℕ → ℕ → ℕ → K, IsIdEnv n R0 →
+      IsIdEnv (RightCanon.inDim n rs) (rightEnvChain cj R0 rs)) ∧
+    (∀ (n : ℕ) (ls : List (Site K)), LeftCanon cj n ls → ∀ L0 : ℕ → ℕ → ℕ → K, IsIdEnv n L0 →
+      IsIdEnv (outDim n ls) (leftEnvChain cj L0 ls)) :=
+  ⟨fun s hs hiso L hL => left_block_stays_identity cj s hs hiso L hL,
+    fun n rs h R0 h0 => rightEnvChain_isId cj n rs h R0 h0,
+    fun n ls h L0 h0 => leftEnvChain_isId cj n ls h L0 h0⟩
+
+/-- non-vacuity: a basis-state site tensor (`A[p,0,0] = δ_{p0}`) with the identity MPO tensor is an identity site with
+    orthonormal columns -/
+example : IdSite (⟨⟨2, 2, 1, 1, 1, 1, 1, 1⟩, fun p _ _ => if p = 0 then 1 else 0, idOp⟩ : Site ℤ) ∧
+    LeftIsoIdx id (⟨⟨2, 2, 1, 1, 1, 1, 1, 1⟩, fun p _ _ => if p = 0 then 1 else 0, idOp⟩ : Site ℤ) := by
+  refine ⟨⟨rfl, rfl, rfl, rfl, rfl, rfl⟩, ?_⟩
+  intro b B hb hB
+  have hb0 : b = 0 := by simpa using hb
+  have hB0 : B = 0 := by simpa using hB
+  subst hb0 hB0
+  decide +kernel
+
+/-- **C02.5g `merged_tensor_is_product`** (bridge between the index model and layer 3).  The merged tensor that
+    `merge_mps_tensors` builds, at the combined physical index `s·d₁ + t`, is the matrix product of the two site tensors'
+    matrices: `θ[(s,t)] = A₀[s]·A₁[t]` — the `A s * B t` of C02.8–C02.9; an exact split is any factorisation of it. -/
+theorem merged_tensor_is_product {K : Type*} [CommSemiring K] (p1 m : ℕ) (A0 A1 : ℕ → ℕ → ℕ → K) (s t a e : ℕ)
+    (ht : t < p1) :
+    mergeKet p1 m A0 A1 (flat2 p1 s t) a e = ∑ c ∈ range m, A0 s a c * A1 t c e := by
+  unfold mergeKet
+  rw [unflat2_flat2 _ _ _ ht, sumTo_eq_sum]
+
+example : mergeKet 2 2 (fun s a c => (s + 2 * a + 4 * c + 1 : ℤ)) (fun t c e => (t + 2 * c + 4 * e + 1 : ℤ)) (flat2 2 1 0) 0 1
+    = 2 * 5 + 6 * 7 := by decide +kernel
+
+end Yaqs.Heff
+
+namespace Yaqs.GateWindow
+
+open Yaqs.Sweep Yaqs.Layers
+
+/-- **C02.6a `gate_window_shapes`** (`apply_window`, `window_size = 1`).  For a gate on the neighbouring chain sites
+    `first, first+1` of a chain of `L` sites the window has `2 + [first > 0] + [first + 2 < L]` sites and the gate's lower site
+    is window site `[first > 0]`: exactly the shapes (length, position) = (2,0), (3,0), (3,1), (4,1). -/
+theorem gate_window_shapes (L first : Nat) (h : first + 1 < L) :
+    windowShape L first (first + 1) =
+      (2 + (if first = 0 then 0 else 1) + (if first + 2 = L then 0 else 1), if first = 0 then 0 else 1) :=
+  windowShape_adjacent L first h
+
+example : windowShape 2 0 1 = (2, 0) ∧ windowShape 5 0 1 = (3, 0) ∧ windowShape 5 3 4 = (3, 1) ∧
+    windowShape 5 1 2 = (4, 1) := by decide
+
+/-- **C02.6b `gate_sweep_times`** (`sim_params.dt = 2` inside the loop, `0.5·dt` forward, `-0.5·dt` backward, `dt = 1` at
+    the last pair).  For every window length `n ≥ 2` the forward pair / backward site steps of `twoSiteFull n true`, in order,
+    carry the times `+1, -1, +1, -1, …, +1`: each backward step has the negative of the time of the pair step before it, and
+    the last pair (which has no backward step) runs a full unit step. -/
+theorem gate_sweep_times (n : Nat) (hn : 2 ≤ n) (steps : List Step) (hs : twoSiteFull n true = some steps) :
+    stepTimes steps = (List.replicate (n - 2) [(1 : Rat), -1]).flatten ++ [1] :=
+  stepTimes_twoSiteFull n hn steps hs
+
+example : (twoSiteFull 4 true).map stepTimes = some [1, -1, 1, -1, 1] := by decide +kernel
+
+/-- **C02.6c `gate_plan_spec`** what the driver request `gplan` (tied to the real `apply_two_qubit_gate` on every run)
+    prints: the placement of C02.4a, the window of C02.4b, the shape of C02.6a, the sites `0 … lo-1` through which
+    `apply_window` shifts the orthogonality centre (so that it sits on the window's first site) and the step list of the digital
+    sweep on a window of that length. -/
+theorem gate_plan_spec (L a b : Nat) :
+    (gatePlan L a b).placement = genPlacement a b ∧
+    (gatePlan L a b).win = window L (genPlacement a b).1.1 (genPlacement a b).2.1 ∧
+    ((gatePlan L a b).n, (gatePlan L a b).p) = windowShape L (genPlacement a b).1.1 (genPlacement a b).2.1 ∧
+    (gatePlan L a b).shifts = List.range (gatePlan L a b).win.1 ∧
+    (gatePlan L a b).steps = twoSiteFull (gatePlan L a b).n true :=
+  ⟨rfl, rfl, rfl, rfl, rfl⟩
+
+/-- **C02.6d `gate_plan_roles`** the roles of the forward pair / backward site steps in the four window shapes: everything
+    before the gate pair is an identity-left step, everything after it an identity-right step, and they come in the
+    cancelling groups (pair, site) resp. (site, pair) of C02.8. -/
+theorem gate_plan_roles :
+    (twoSiteFull 2 true).map (List.filterMap (stepRole 0)) = some [.gate] ∧
+    (twoSiteFull 3 true).map (List.filterMap (stepRole 0)) = some [.gate, .idRight, .idRight] ∧
+    (twoSiteFull 3 true).map (List.filterMap (stepRole 1)) = some [.idLeft, .idLeft, .gate] ∧
+    (twoSiteFull 4 true).map (List.filterMap (stepRole 1)) = some [.idLeft, .idLeft, .gate, .idRight, .idRight] := by
+  decide +kernel
+
+/-- **C02.6e `gate_plan_tokens_spec`** (link theorem for the printer of the `gplan` request).  The token list that is diffed
+    against the real trace is the step list of C02.6c mapped through `stepTok`, and a token carries the step's site index,
+    its time and — for the two kinds of `update_site` calls — the role `pairRole` / `siteRole` of C02.6d. -/
+theorem gate_plan_tokens_spec (L a b : Nat) (steps : List Step) (h : (gatePlan L a b).steps = some steps) (p i : Nat)
+    (t : Rat) (r : Bool) :
+    planTokens (gatePlan L a b) = steps.map (stepTok (gatePlan L a b).p) ∧
+    stepTok p (.merge i) = s!"m:{i}" ∧
+    stepTok p (.prim (.pair i t)) = s!"P:{i}:{showRat' t}:{(pairRole p i).tok}" ∧
+    stepTok p (.prim (.split i r)) = s!"x:{i}:{if r then "R" else "L"}" ∧
+    stepTok p (.prim (.site i t)) = s!"s:{i}:{showRat' t}:{(siteRole p i).tok}" := by
+  refine ⟨?_, rfl, rfl, rfl, rfl⟩
+  unfold planTokens
+  rw [h]
+
+example : planTokens (gatePlan 5 1 2) =
+    ["m:0", "P:0:1:idL", "x:0:R", "s:1:-1:idL", "m:1", "P:1:1:gate", "x:1:R", "s:2:-1:idR", "m:2", "P:2:1:idR", "x:2:R"] := by
+  decide +kernel
+
+end Yaqs.GateWindow
+
+namespace Yaqs.GateSweep
+
+open Matrix Yaqs.Conserve Yaqs.Sweep Yaqs.GateWindow
+
+/-- **C02.7a `flow_spectator`** Mathlib's matrix exponential of `1 ⊗ K` — `K` on part `ν` of an index set `μ ≃ ν × α`, the
+    part `α` a spectator — is `1 ⊗ exp`: `exp(-(t·i)•(1⊗K)) = 1 ⊗ exp(-(t·i)•K)`, for every `K` and every real `t`. -/
+theorem flow_spectator {μ ν α : Type*} [Fintype μ] [DecidableEq μ] [Fintype ν] [DecidableEq ν] [Fintype α]
+    [DecidableEq α] (e : μ ≃ ν × α) (K : Matrix ν ν ℂ) (t : ℝ) (i j : μ) :
+    flow (liftSpec e K) t i j = if (e i).2 = (e j).2 then flow K t (e i).1 (e j).1 else 0 := by
+  rw [flow_liftSpec]
+  rfl
+
+/-- non-vacuity: the generator `1 ⊗ K` is not a multiple of the identity (entry `((0,0),(1,0))` is `K 0 1`) -/
+example : liftSpec (Equiv.refl (Fin 2 × Fin 2)) (!![0, 1; 1, 0] : Matrix (Fin 2) (Fin 2) ℂ) (0, 0) (1, 0) = 1 := by
+  simp [liftSpec]
+
+/-- **C02.7b `site_step_identity_left`** from the dense effective Hamiltonian to the action on the tensor.  `H` is indexed by
+    the triples `(phys, left, right)` (the order of `reshape(-1)`) and has the form of C02.5a(ii); `X'` is the exact flow
+    `exp(-(t·i)•H)` applied to the flattened `X` (what `update_site(L, R, W, X, t)` returns when the Krylov exponential is exact,
+    C19).  Then `X' = actR (exp(-(t·i)•K)) X`: the operator acts on `(phys, right bond)`, every left bond index separately.
+    Serves the pair step as well (merged physical index as `phys`). -/
+theorem site_step_identity_left {σ α β : Type*} [Fintype σ] [DecidableEq σ] [Fintype α] [DecidableEq α] [Fintype β]
+    [DecidableEq β] (H : Matrix (σ × α × β) (σ × α × β) ℂ) (K : Matrix (σ × β) (σ × β) ℂ)
+    (hH : ∀ s a b s' a' b', H (s, a, b) (s', a', b') = if a = a' then K (s, b) (s', b') else 0) (t : ℝ)
+    (X X' : σ → Matrix α β ℂ)
+    (hstep : ∀ s a b, X' s a b = (flow H t *ᵥ fun x : σ × α × β => X x.1 x.2.1 x.2.2) (s, a, b)) :
+    X' = actR (flow K t) X :=
+  site_step_idleft H K hH t X X' hstep
+
+/-- **C02.7c `site_step_identity_right`** the mirror image, from the form of C02.5c(ii): `X' = actL (exp(-(t·i)•K')) X`. -/
+theorem site_step_identity_right {σ α β : Type*} [Fintype σ] [DecidableEq σ] [Fintype α] [DecidableEq α] [Fintype β]
+    [DecidableEq β] (H : Matrix (σ × α × β) (σ × α × β) ℂ) (K : Matrix (σ × α) (σ × α) ℂ)
+    (hH : ∀ s a b s' a' b', H (s, a, b) (s', a', b') = if b = b' then K (s, a) (s', a') else 0) (t : ℝ)
+    (X X' : σ → Matrix α β ℂ)
+    (hstep : ∀ s a b, X' s a b = (flow H t *ᵥ fun x : σ × α × β => X x.1 x.2.1 x.2.2) (s, a, b)) :
+    X' = actL (flow K t) X :=
+  site_step_idright H K hH t X X' hstep
+
+/-- **C02.7d `gate_pair_step`** the gate's own pair, from the form of C02.5e: `H = Gen ⊗ 1 ⊗ 1` on `((s,u), left, right)` ⇒ the
+    new merged tensor is `Σ exp(-(t·i)•Gen)[(s,u),(s',u')] • θ[s',u']`, both bonds spectators. -/
+theorem gate_pair_step {σ π α β : Type*} [Fintype σ] [DecidableEq σ] [Fintype π] [DecidableEq π] [Fintype α]
+    [DecidableEq α] [Fintype β] [DecidableEq β] (pr : σ × σ ≃ π)
+    (H : Matrix ((σ × σ) × α × β) ((σ × σ) × α × β) ℂ) (Gen : Matrix π π ℂ)
+    (hH : ∀ st a b st' a' b', H (st, a, b) (st', a', b') = if a = a' ∧ b = b' then Gen (pr st) (pr st') else 0)
+    (t : ℝ) (θ θ' : σ → σ → Matrix α β ℂ)
+    (hstep : ∀ s u a b, θ' s u a b =
+      (flow H t *ᵥ fun x : (σ × σ) × α × β => θ x.1.1 x.1.2 x.2.1 x.2.2) ((s, u), a, b)) :
+    ∀ s u, θ' s u = ∑ s', ∑ u', flow Gen t (pr (s, u)) (pr (s', u')) • θ s' u' :=
+  pair_step_gate pr H Gen hH t θ θ' hstep
+
+/-- **C02.7e `site_step_index_model`** (layers 1 and 2 joined for the site step).  For a site of physical dimension `p` and
+    bond dimensions `a`, `b` whose left MPO bond has dimension 1 and whose left block is the identity, take the *index model's*
+    dense effective Hamiltonian `h6` (`build_dense_heff_site` before its reshape, `Model/Heff.lean`, value-tied to the real
+    function by C19) as a matrix over the index triples: the exact flow applied to the flattened tensor is `actR` of the flow of
+    the kernel matrix `K[(o,B),(p,b)] = Σ_r W[o,p,0,r]·R[b,r,B]`.  No hypothesis about the form of `H` is left. -/
+theorem site_step_index_model (p a b r : ℕ) (L R : ℕ → ℕ → ℕ → ℂ) (W : ℕ → ℕ → ℕ → ℕ → ℂ) (hL : Heff.IsIdEnv a L)
+    (t : ℝ) (X X' : Fin p → Matrix (Fin a) (Fin b) ℂ)
+    (hstep : ∀ s x y, X' s x y =
+      (flow (Matrix.of fun (i j : Fin p × Fin a × Fin b) =>
+          Heff.h6 ⟨p, p, a, a, b, b, 1, r⟩ L R W i.1 i.2.1 i.2.2 j.1 j.2.1 j.2.2) t *ᵥ
+        fun x : Fin p × Fin a × Fin b => X x.1 x.2.1 x.2.2) (s, x, y)) :
+    X' = actR (flow (Matrix.of fun (i j : Fin p × Fin b) =>
+      Heff.opR ⟨p, p, a, a, b, b, 1, r⟩ W R i.1 j.1 j.2 i.2 0) t) X := by
+  refine site_step_idleft _ _ ?_ t X X' hstep
+  intro s x y s' x' y'
+  simp only [Matrix.of_apply]
+  rw [Heff.dense_heff_idleft ⟨p, p, a, a, b, b, 1, r⟩ rfl L R W hL _ _ _ _ _ _ x'.isLt x.isLt]
+  by_cases h : x = x'
+  · subst h
+    simp
+  · have h' : (x' : ℕ) ≠ (x : ℕ) := fun e => h (Fin.ext e.symm)
+    simp [h, h']
+
+/-- **C02.7f `site_step_index_model_right`** the mirror image: right MPO bond of dimension 1, identity right block; the exact
+    flow of the index model's `h6` is `actL` of the flow of `K'[(o,A),(p,a)] = Σ_l W[o,p,l,0]·L[a,l,A]`. -/
+theorem site_step_index_model_right (p a b l : ℕ) (L R : ℕ → ℕ → ℕ → ℂ) (W : ℕ → ℕ → ℕ → ℕ → ℂ)
+    (hR : Heff.IsIdEnv b R) (t : ℝ) (X X' : Fin p → Matrix (Fin a) (Fin b) ℂ)
+    (hstep : ∀ s x y, X' s x y =
+      (flow (Matrix.of fun (i j : Fin p × Fin a × Fin b) =>
+          Heff.h6 ⟨p, p, a, a, b, b, l, 1⟩ L R W i.1 i.2.1 i.2.2 j.1 j.2.1 j.2.2) t *ᵥ
+        fun x : Fin p × Fin a × Fin b => X x.1 x.2.1 x.2.2) (s, x, y)) :
+    X' = actL (flow (Matrix.of fun (i j : Fin p × Fin a) =>
+      Heff.opL ⟨p, p, a, a, b, b, l, 1⟩ W L i.1 j.1 j.2 i.2 0) t) X := by
+  refine site_step_idright _ _ ?_ t X X' hstep
+  intro s x y s' x' y'
+  simp only [Matrix.of_apply]
+  rw [Heff.dense_heff_idright ⟨p, p, a, a, b, b, l, 1⟩ rfl L R W hR _ _ _ _ _ _ y'.isLt y.isLt]
+  by_cases h : y = y'
+  · subst h
+    simp
+  · have h' : (y' : ℕ) ≠ (y : ℕ) := fun e => h (Fin.ext e.symm)
+    simp [h, h']
+
+/-- **C02.8a `gate_sweep_cancel_left`** the three steps "forward pair step, split, backward site step" on an identity-left pair
+    leave the product of the two tensors — hence the dense state of the window — unchanged: `U·M' = A·B`.  Hypotheses: the
+    pair step and the site step are the flows of the same generator `K` with times `t`, `-t` (C02.5a/b, C02.7b, `gate_sweep_times`);
+    the split is exact (`U s * M t'` is the updated merged tensor). -/
+theorem gate_sweep_cancel_left {σ a m k c : Type*} [Fintype σ] [DecidableEq σ] [Fintype a] [Fintype m] [Fintype k]
+    [Fintype c] [DecidableEq c] (A : σ → Matrix a m ℂ) (B : σ → Matrix m c ℂ) (K : Matrix (σ × c) (σ × c) ℂ) (t : ℝ)
+    (U : σ → Matrix a k ℂ) (M M' : σ → Matrix k c ℂ)
+    (hpair : ∀ s, (fun t' => U s * M t') = actR (flow K t) (fun t' => A s * B t'))
+    (hsite : M' = actR (flow K (-t)) M) :
+    ∀ s t', U s * M' t' = A s * B t' :=
+  cancel_left A B K t U M M' hpair hsite
+
+/-- non-vacuity: for every `A`, `B`, `K`, `t` the split `U = A`, `M = actR (flow K t) B` meets the hypotheses -/
+example {σ a m c : Type*} [Fintype σ] [DecidableEq σ] [Fintype a] [Fintype m] [Fintype c] [DecidableEq c]
+    (A : σ → Matrix a m ℂ) (B : σ → Matrix m c ℂ) (K : Matrix (σ × c) (σ × c) ℂ) (t : ℝ) :
+    ∃ (U : σ → Matrix a m ℂ) (M M' : σ → Matrix m c ℂ),
+      (∀ s, (fun t' => U s * M t') = actR (flow K t) (fun t' => A s * B t')) ∧ M' = actR (flow K (-t)) M :=
+  ⟨A, actR (flow K t) B, _, fun s => mul_actR (A s) (flow K t) B, rfl⟩
+
+/-- **C02.8b `gate_sweep_cancel_right`** the three steps "backward site step, merge, forward pair step (+ split)" to the right
+    of the gate leave the product unchanged: `U·N = M·B`.  Same generator `K'` (C02.5c/d: the site step uses
+    `left_blocks[i]`, `W_i` and an identity right block, the pair step the same `left_blocks[i]`, `W_i ⊗ 1` and an identity right
+    block), times `-t`, `t`. -/
+theorem gate_sweep_cancel_right {σ k m c j : Type*} [Fintype σ] [DecidableEq σ] [Fintype k] [DecidableEq k] [Fintype m]
+    [Fintype c] [Fintype j] (M M' : σ → Matrix k m ℂ) (B : σ → Matrix m c ℂ) (K : Matrix (σ × k) (σ × k) ℂ) (t : ℝ)
+    (U : σ → Matrix k j ℂ) (N : σ → Matrix j c ℂ)
+    (hsite : M' = actL (flow K (-t)) M)
+    (hpair : ∀ t', (fun s => U s * N t') = actL (flow K t) (fun s => M' s * B t')) :
+    ∀ s t', U s * N t' = M s * B t' :=
+  cancel_right M M' B K t U N hsite hpair
+
+example {σ k m c : Type*} [Fintype σ] [DecidableEq σ] [Fintype k] [DecidableEq k] [Fintype m] [Fintype c]
+    (M : σ → Matrix k m ℂ) (B : σ → Matrix m c ℂ) (K : Matrix (σ × k) (σ × k) ℂ) (t : ℝ) :
+    ∃ (M' : σ → Matrix k m ℂ) (U : σ → Matrix k m ℂ) (N : σ → Matrix m c ℂ),
+      M' = actL (flow K (-t)) M ∧ ∀ t', (fun s => U s * N t') = actL (flow K t) (fun s => M' s * B t') :=
+  ⟨_, actL (flow K t) (actL (flow K (-t)) M), B, rfl, fun t' => actL_mul (B t') (flow K t) _⟩
+
+private theorem cast_one_neg : ((1 : ℚ) : ℝ) = 1 ∧ ((-1 : ℚ) : ℝ) = -1 := by constructor <;> norm_num
+
+/-- **C02.9a `gate_sweep_exact_2`** (window of two sites — a two-site chain).  The sweep is `merge 0, pair 0 (dt = 1), split`:
+    the only pair is the gate's (C02.5e, C02.7d).  With the time read off the model's step list the product of the two new
+    tensors is `exp(-i·Gen)` on the two physical legs applied to the product of the old ones. -/
+theorem gate_sweep_exact_2 {σ π a m1 b k1 : Type*} [Fintype σ] [DecidableEq σ] [Fintype π] [DecidableEq π]
+    [Fintype a] [Fintype m1] [Fintype b] [Fintype k1]
+    (steps : List Step) (hsteps : twoSiteFull 2 true = some steps) (tG : ℚ) (htimes : stepTimes steps = [tG])
+    (Gen : Matrix π π ℂ) (pr : σ → σ → π) (A0 : σ → Matrix a m1 ℂ) (A1 : σ → Matrix m1 b ℂ)
+    (U0 : σ → Matrix a k1 ℂ) (M1 : σ → Matrix k1 b ℂ)
+    (hgate : ∀ s t, U0 s * M1 t = ∑ s', ∑ t', flow Gen (tG : ℝ) (pr s t) (pr s' t') • (A0 s' * A1 t')) :
+    ∀ s0 s1, U0 s0 * M1 s1 = ∑ s', ∑ t', flow Gen 1 (pr s0 s1) (pr s' t') • (A0 s' * A1 t') := by
+  have ht := gate_sweep_times 2 (by omega) steps hsteps
+  rw [htimes] at ht
+  have e : (List.replicate (2 - 2) [(1 : ℚ), -1]).flatten ++ [1] = [1] := rfl
+  rw [e] at ht
+  simp only [List.cons.injEq, and_true] at ht
+  subst ht
+  rw [cast_one_neg.1] at hgate
+  exact hgate
+
+/-- **C02.9b `gate_sweep_exact_3_left`** (window of three sites, gate on window sites 0,1 — a gate at the chain's left end).
+    Sweep: gate pair `(0,1)` with `+1`, split, backward step on site 1 with `-1`, merge, last pair `(1,2)` with `dt = 1`, split.
+    The last three cancel (C02.8b). -/
+theorem gate_sweep_exact_3_left {σ π a m1 m2 b k1 k2 : Type*} [Fintype σ] [DecidableEq σ] [Fintype π] [DecidableEq π]
+    [Fintype a] [Fintype m1] [Fintype m2] [Fintype b] [Fintype k1] [DecidableEq k1] [Fintype k2]
+    (steps : List Step) (hsteps : twoSiteFull 3 true = some steps) (tG tRb tR : ℚ)
+    (htimes : stepTimes steps = [tG, tRb, tR])
+    (Gen : Matrix π π ℂ) (pr : σ → σ → π) (A0 : σ → Matrix a m1 ℂ) (A1 : σ → Matrix m1 m2 ℂ) (A2 : σ → Matrix m2 b ℂ)
+    (K : Matrix (σ × k1) (σ × k1) ℂ)
+    (U0 : σ → Matrix a k1 ℂ) (M1 M1' : σ → Matrix k1 m2 ℂ) (U1 : σ → Matrix k1 k2 ℂ) (M2 : σ → Matrix k2 b ℂ)
+    (hgate : ∀ s t, U0 s * M1 t = ∑ s', ∑ t', flow Gen (tG : ℝ) (pr s t) (pr s' t') • (A0 s' * A1 t'))
+    (hsite : M1' = actL (flow K (tRb : ℝ)) M1)
+    (hpair : ∀ t', (fun s => U1 s * M2 t') = actL (flow K (tR : ℝ)) (fun s => M1' s * A2 t')) :
+    ∀ s0 s1 s2, U0 s0 * U1 s1 * M2 s2 =
+      ∑ s', ∑ t', flow Gen 1 (pr s0 s1) (pr s' t') • (A0 s' * A1 t' * A2 s2) := by
+  have ht := gate_sweep_times 3 (by omega) steps hsteps
+  rw [htimes] at ht
+  have e : (List.replicate (3 - 2) [(1 : ℚ), -1]).flatten ++ [1] = [1, -1, 1] := rfl
+  rw [e] at ht
+  simp only [List.cons.injEq, and_true] at ht
+  obtain ⟨rfl, rfl, rfl⟩ := ht
+  rw [cast_one_neg.1] at hgate hpair
+  rw [cast_one_neg.2] at hsite
+  exact sweep_3_left (fun s t s' t' => flow Gen 1 (pr s t) (pr s' t')) A0 A1 A2 K 1 U0 M1 M1' U1 M2 hgate hsite hpair
+
+/-- **C02.9c `gate_sweep_exact_3_right`** (window of three sites, gate on window sites 1,2 — a gate at the chain's right end).
+    Sweep: identity-left pair `(0,1)` with `+1`, split, backward step on site 1 with `-1` (these cancel, C02.8a), merge, the
+    gate pair `(1,2)` as last pair with `dt = 1`, split. -/
+theorem gate_sweep_exact_3_right {σ π a m1 m2 b k1 k2 : Type*} [Fintype σ] [DecidableEq σ] [Fintype π] [DecidableEq π]
+    [Fintype a] [Fintype m1] [Fintype m2] [DecidableEq m2] [Fintype b] [Fintype k1] [Fintype k2]
+    (steps : List Step) (hsteps : twoSiteFull 3 true = some steps) (tL tLb tG : ℚ)
+    (htimes : stepTimes steps = [tL, tLb, tG])
+    (Gen : Matrix π π ℂ) (pr : σ → σ → π) (A0 : σ → Matrix a m1 ℂ) (A1 : σ → Matrix m1 m2 ℂ) (A2 : σ → Matrix m2 b ℂ)
+    (K : Matrix (σ × m2) (σ × m2) ℂ)
+    (U0 : σ → Matrix a k1 ℂ) (M1 M1' : σ → Matrix k1 m2 ℂ) (U1 : σ → Matrix k1 k2 ℂ) (M2 : σ → Matrix k2 b ℂ)
+    (hpair : ∀ s, (fun t' => U0 s * M1 t') = actR (flow K (tL : ℝ)) (fun t' => A0 s * A1 t'))
+    (hsite : M1' = actR (flow K (tLb : ℝ)) M1)
+    (hgate : ∀ s t, U1 s * M2 t = ∑ s', ∑ t', flow Gen (tG : ℝ) (pr s t) (pr s' t') • (M1' s' * A2 t')) :
+    ∀ s0 s1 s2, U0 s0 * U1 s1 * M2 s2 =
+      ∑ s', ∑ t', flow Gen 1 (pr s1 s2) (pr s' t') • (A0 s0 * A1 s' * A2 t') := by
+  have ht := gate_sweep_times 3 (by omega) steps hsteps
+  rw [htimes] at ht
+  have e : (List.replicate (3 - 2) [(1 : ℚ), -1]).flatten ++ [1] = [1, -1, 1] := rfl
+  rw [e] at ht
+  simp only [List.cons.injEq, and_true] at ht
+  obtain ⟨rfl, rfl, rfl⟩ := ht
+  rw [cast_one_neg.1] at hgate hpair
+  rw [cast_one_neg.2] at hsite
+  exact sweep_3_right (fun s t s' t' => flow Gen 1 (pr s t) (pr s' t')) A0 A1 A2 K 1 U0 M1 M1' U1 M2 hpair hsite hgate
+
+/-- **C02.9d `gate_sweep_exact_4`** (window of four sites, gate on window sites 1,2 — a gate in the middle of the chain; the
+    general case).  Sweep of `twoSiteFull 4 true`: [pair (0,1) `+1`, split, site 1 `-1`] cancel (C02.8a); gate pair (1,2) `+1`,
+    split; [site 2 `-1`, merge, last pair (2,3) `dt = 1`] cancel (C02.8b); final split.  The product of the four new tensors is
+    `exp(-i·Gen)` on physical legs 1, 2 applied to the product of the four old tensors, outer bonds untouched: the window's new
+    state is `(1 ⊗ exp(-i·A⊗B) ⊗ 1)·(old window state)`. -/
+theorem gate_sweep_exact_4 {σ π a m1 m2 m3 b k1 k2 k3 : Type*} [Fintype σ] [DecidableEq σ] [Fintype π]
+    [DecidableEq π] [Fintype a] [Fintype m1] [Fintype m2] [DecidableEq m2] [Fintype m3] [Fintype b] [Fintype k1]
+    [Fintype k2] [DecidableEq k2] [Fintype k3]
+    (steps : List Step) (hsteps : twoSiteFull 4 true = some steps) (tL tLb tG tRb tR : ℚ)
+    (htimes : stepTimes steps = [tL, tLb, tG, tRb, tR])
+    (Gen : Matrix π π ℂ) (pr : σ → σ → π)
+    (A0 : σ → Matrix a m1 ℂ) (A1 : σ → Matrix m1 m2 ℂ) (A2 : σ → Matrix m2 m3 ℂ) (A3 : σ → Matrix m3 b ℂ)
+    (K1 : Matrix (σ × m2) (σ × m2) ℂ) (K2 : Matrix (σ × k2) (σ × k2) ℂ)
+    (U0 : σ → Matrix a k1 ℂ) (M1 M1' : σ → Matrix k1 m2 ℂ) (U1 : σ → Matrix k1 k2 ℂ) (M2 M2' : σ → Matrix k2 m3 ℂ)
+    (U2 : σ → Matrix k2 k3 ℂ) (M3 : σ → Matrix k3 b ℂ)
+    (hpairL : ∀ s, (fun t' => U0 s * M1 t') = actR (flow K1 (tL : ℝ)) (fun t' => A0 s * A1 t'))
+    (hsiteL : M1' = actR (flow K1 (tLb : ℝ)) M1)
+    (hgate : ∀ s t, U1 s * M2 t = ∑ s', ∑ t', flow Gen (tG : ℝ) (pr s t) (pr s' t') • (M1' s' * A2 t'))
+    (hsiteR : M2' = actL (flow K2 (tRb : ℝ)) M2)
+    (hpairR : ∀ t', (fun s => U2 s * M3 t') = actL (flow K2 (tR : ℝ)) (fun s => M2' s * A3 t')) :
+    ∀ s0 s1 s2 s3, U0 s0 * U1 s1 * U2 s2 * M3 s3 =
+      ∑ s', ∑ t', flow Gen 1 (pr s1 s2) (pr s' t') • (A0 s0 * A1 s' * A2 t' * A3 s3) := by
+  have ht := gate_sweep_times 4 (by omega) steps hsteps
+  rw [htimes] at ht
+  have e : (List.replicate (4 - 2) [(1 : ℚ), -1]).flatten ++ [1] = [1, -1, 1, -1, 1] := rfl
+  rw [e] at ht
+  simp only [List.cons.injEq, and_true] at ht
+  obtain ⟨rfl, rfl, rfl, rfl, rfl⟩ := ht
+  rw [cast_one_neg.1] at hgate hpairL hpairR
+  rw [cast_one_neg.2] at hsiteL hsiteR
+  exact sweep_4 (fun s t s' t' => flow Gen 1 (pr s t) (pr s' t')) A0 A1 A2 A3 K1 K2 1 1 U0 M1 M1' U1 M2 M2' U2 M3
+    hpairL hsiteL hgate hsiteR hpairR
+
+/-- non-vacuity of C02.9d (and, by dropping sites, of C02.9a–c): the model's step list exists with the times `1,-1,1,-1,1`, and
+    for *arbitrary* site tensors, generators and two-site operator there are exact splits and intermediate tensors meeting
+    every hypothesis -/
+example : ∃ steps, twoSiteFull 4 true = some steps ∧ stepTimes steps = [1, -1, 1, -1, 1] :=
+  ⟨_, rfl, by decide +kernel⟩
+example {σ a m1 m2 m3 b : Type*} [Fintype σ] [DecidableEq σ] [Fintype a] [Fintype m1] [DecidableEq m1] [Fintype m2]
+    [DecidableEq m2] [Fintype m3] [Fintype b] (G : σ → σ → σ → σ → ℂ)
+    (A0 : σ → Matrix a m1 ℂ) (A1 : σ → Matrix m1 m2 ℂ) (A2 : σ → Matrix m2 m3 ℂ) (A3 : σ → Matrix m3 b ℂ)
+    (K1 : Matrix (σ × m2) (σ × m2) ℂ) (K2 : Matrix (σ × (σ × m1)) (σ × (σ × m1)) ℂ) :
+    ∃ (U0 : σ → Matrix a m1 ℂ) (M1 M1' : σ → Matrix m1 m2 ℂ) (U1 : σ → Matrix m1 (σ × m1) ℂ)
+      (M2 M2' : σ → Matrix (σ × m1) m3 ℂ) (U2 : σ → Matrix (σ × m1) m3 ℂ) (M3 : σ → Matrix m3 b ℂ),
+      (∀ s, (fun t' => U0 s * M1 t') = actR (flow K1 1) (fun t' => A0 s * A1 t')) ∧
+      M1' = actR (flow K1 (-1)) M1 ∧
+      (∀ s t, U1 s * M2 t = ∑ s', ∑ t', G s t s' t' • (M1' s' * A2 t')) ∧
+      M2' = actL (flow K2 (-1)) M2 ∧
+      (∀ t', (fun s => U2 s * M3 t') = actL (flow K2 1) (fun s => M2' s * A3 t')) :=
+  sweep_4_hyps_sat G A0 A1 A2 A3 K1 K2 1 1
+
+/-- **C02.10 `gate_sweep_gate_matrix`** (link to C18).  The operator `exp(-(1·i)•Gen)` of C02.9a–d for the generator pair a
+    gate class stores is the gate's matrix: for each of `cx cz cp rxx ryy rzz` and every real angle, with `Gen = A ⊗ B` in
+    gate-qubit order (lower site = `sites[0]`) the entries are those of the gate table; with `Gen = B ⊗ A` (reversed
+    orientation, `sites[1] < sites[0]`: `generator_on_own_site` puts `B` on the lower site) they are those of the gate with
+    its qubits exchanged.  The pair index is `2·s + t` (`Gates.pair`), the flattening `merge_mps_tensors` uses. -/
+theorem gate_sweep_gate_matrix (g : Gates.GG) (θ : ℝ) (s t s' t' : Fin 2) :
+    flow (Gates.toM (Gates.genKron (g.generator Complex.I (g.lamOf θ))) : Matrix (Fin 4) (Fin 4) ℂ) 1
+        (Gates.pair s t) (Gates.pair s' t') =
+      g.toG2.matrix Complex.I (g.circleOf θ).1 (g.circleOf θ).2 (Gates.pair s t) (Gates.pair s' t') ∧
+    flow (Gates.toM (Gates.kron (g.generator Complex.I (g.lamOf θ)).2 (g.generator Complex.I (g.lamOf θ)).1) :
+        Matrix (Fin 4) (Fin 4) ℂ) 1 (Gates.pair s t) (Gates.pair s' t') =
+      Gates.placed (g.toG2.matrix Complex.I (g.circleOf θ).1 (g.circleOf θ).2) true (Gates.pair s t) (Gates.pair s' t') := by
+  have h1 : ∀ K : Matrix (Fin 4) (Fin 4) ℂ, flow K 1 = NormedSpace.exp ((-Complex.I) • K) := by
+    intro K
+    unfold flow
+    congr 2
+    simp
+  rw [h1, h1, Gates.c18_generator_exp, Gates.c18_generator_exp_reversed]
+  exact ⟨rfl, rfl⟩
+
+/-- non-vacuity: the `cx` matrix at `(control, target) = (1, 0) → (1, 1)` is 1 -/
+example : (Gates.G2.matrix .cx Complex.I 1 0 : Gates.M4 ℂ) (Gates.pair 1 1) (Gates.pair 1 0) = 1 := by
+  simp [Gates.G2.matrix, Gates.cx, Gates.m4, Gates.v4, Gates.pair]
+
+end Yaqs.GateSweep
+
+namespace Yaqs.Layers
+
+open Matrix
+
+/-- **C02.11 `c02_trajectory_is_circuit_unitary`** (corollary of `schedule_sound`).  Let `sem g` be the dense operator of
+    gate `g` on the whole register — for a two-qubit gate the gate matrix on its two sites (C02.9 + C02.10: that is what one
+    `apply_two_qubit_gate` call applies to the dense state), for a one-qubit gate its 2×2 matrix contracted into the site
+    tensor — and assume gates on disjoint qubits commute.  Then applying the gates one after the other *in the order
+    `digital_tjm` applies them* to any initial vector gives `U_circuit · ψ₀`, the product of the program's gates in program
+    order (later gate on the left), for every circuit. -/
+theorem c02_trajectory_is_circuit_unitary {n : Type*} [Fintype n] [DecidableEq n] (sem : Instr → Matrix n n ℂ)
+    (hcomm : ∀ g h, g.isGate = true → h.isGate = true → (∀ q, ¬(q ∈ g.qubits ∧ q ∈ h.qubits)) →
+      Commute (sem g) (sem h))
+    (c : List Instr) (ψ0 : n → ℂ) :
+    (schedule c).foldl (fun ψ g => sem g *ᵥ ψ) ψ0 = (((gates c).map sem).reverse.prod) *ᵥ ψ0 := by
+  have key : ∀ (l : List Instr) (ψ : n → ℂ), l.foldl (fun ψ g => sem g *ᵥ ψ) ψ = ((l.map sem).reverse.prod) *ᵥ ψ := by
+    intro l
+    induction l with
+    | nil => intro ψ; simp
+    | cons g l ih =>
+      intro ψ
+      rw [List.foldl_cons, ih, List.map_cons, List.reverse_cons, List.prod_append, List.prod_singleton,
+        Matrix.mulVec_mulVec]
+  rw [key, (schedule_sound sem hcomm c).2]
+
+/-- non-vacuity: two gates on different qubits of a 2-qubit register (`Z ⊗ 1` and `1 ⊗ X` as 4×4 matrices) commute and
+    are not scalar -/
+example : Commute (Matrix.diagonal ![1, 1, -1, -1] : Matrix (Fin 4) (Fin 4) ℂ)
+    (!![0, 1, 0, 0; 1, 0, 0, 0; 0, 0, 0, 1; 0, 0, 1, 0] : Matrix (Fin 4) (Fin 4) ℂ) := by
+  unfold Commute SemiconjBy
+  ext i j
+  fin_cases i <;> fin_cases j <;> simp [Matrix.mul_apply, Matrix.diagonal]
 
 end Yaqs.Layers
